@@ -443,6 +443,9 @@ func (e *Engine) builtin(b *ssa.Builtin, args []Value, call *ssa.Call) Value {
 		n := s.Len + len(add)
 		if n <= s.Cap && !s.Nil {
 			for i, v := range add {
+				if len(e.strViews) > 0 {
+					e.checkStrView(&(*s.A)[s.Off+s.Len+i])
+				}
 				(*s.A)[s.Off+s.Len+i] = v
 			}
 			return Slice{A: s.A, Off: s.Off, Len: n, Cap: s.Cap}
@@ -477,11 +480,17 @@ func (e *Engine) builtin(b *ssa.Builtin, args []Value, call *ssa.Call) Value {
 				tmp[i] = copyVal((*y.A)[y.Off+i])
 			}
 			for i := 0; i < n; i++ {
+				if len(e.strViews) > 0 {
+					e.checkStrView(&(*d.A)[d.Off+i])
+				}
 				(*d.A)[d.Off+i] = tmp[i]
 			}
 		case Str:
 			n = min(d.Len, y.Len())
 			for i := 0; i < n; i++ {
+				if len(e.strViews) > 0 {
+					e.checkStrView(&(*d.A)[d.Off+i])
+				}
 				(*d.A)[d.Off+i] = y.byteAt(i)
 			}
 		}
@@ -538,6 +547,7 @@ func (e *Engine) builtin(b *ssa.Builtin, args []Value, call *ssa.Call) Value {
 				bs := make([]Int, n)
 				for i := 0; i < n; i++ {
 					bs[i] = (*ci.arr)[ci.idx+i].(Int)
+					e.noteStrView(&(*ci.arr)[ci.idx+i])
 				}
 				return strFromBytes(bs)
 			}
@@ -545,6 +555,7 @@ func (e *Engine) builtin(b *ssa.Builtin, args []Value, call *ssa.Call) Value {
 				bs := make([]Int, n)
 				for i := 0; i < n; i++ {
 					bs[i] = (*bp.A)[bp.Off+i].(Int)
+					e.noteStrView(&(*bp.A)[bp.Off+i])
 				}
 				return strFromBytes(bs)
 			}
@@ -570,4 +581,23 @@ func (e *Engine) builtin(b *ssa.Builtin, args []Value, call *ssa.Call) Value {
 		return Iface{}
 	}
 	panic(unsupported(fmt.Sprintf("builtin %s(%d args)", b.Name(), len(args))))
+}
+
+// String views: unsafe.String makes a string that shares the bytes of a slice. Go strings are
+// immutable values for everyone who holds them, so a later write to those bytes changes strings that
+// were already handed out. The interpreter's strings are snapshots; the monitor reports the write
+// instead (kind "memory"). Views are dropped when the harness says the strings are dead
+// (never, at present: every string the code under test builds this way is returned to its caller).
+func (e *Engine) noteStrView(c *Value) {
+	if e.strViews == nil {
+		e.strViews = map[*Value]bool{}
+	}
+	e.strViews[c] = true
+}
+
+func (e *Engine) checkStrView(c *Value) {
+	if e.strViews[c] {
+		delete(e.strViews, c) // one report per byte
+		e.reportKind("memory", "write to bytes that a string made with unsafe.String still shares, in "+e.curFunc(), nil)
+	}
 }
